@@ -91,7 +91,7 @@ def body_tokens(f):
 
 def similarity(a, b):
     if not a and not b:
-        return 0.0
+        return 1.0      # two bodies without any distinctive word (a bare loop over calls) are alike as far as this measure goes
     keys = set(a) | set(b)
     return sum(min(a.get(k, 0), b.get(k, 0)) for k in keys) / float(sum(max(a.get(k, 0), b.get(k, 0)) for k in keys))
 
@@ -121,8 +121,22 @@ def canonicalise_functions(F, table):
         changed = False
         inv = dict(mapping)
 
-        def canon_set(s):
-            return sorted(inv.get(x, x) for x in s)
+        def through_unknown(s, rel, depth=3):
+            """callers (callees) with functions the record does not know replaced by *their* callers (callees): a role is
+            recognised through freshly extracted helpers standing between it and its recorded neighbours"""
+            out, todo = set(), [(x, 0) for x in s]
+            while todo:
+                x, d = todo.pop()
+                if x in unknown and x not in inv and d < depth and rel.get(x):
+                    todo.extend((y, d + 1) for y in rel[x] if y != "<self>")
+                else:
+                    out.add(x)
+            return out
+
+        def canon_set(s, rel=None):
+            if rel is not None:
+                s = through_unknown(s, rel)
+            return sorted(set(inv.get(x, x) for x in s))
         for op, row in missing.items():
             if op in mapping.values():
                 continue
@@ -132,17 +146,24 @@ def canonicalise_functions(F, table):
                 same_owner = (u.get("self_adt") or "") == row["self_adt"]
                 same_sig = sig(u) == row["sig"]
                 cu = canon_set(callers.get(np, ()))
-                same_callers = bool(cu) and cu == sorted(row["callers"])
+                same_callers = bool(cu) and (cu == sorted(row["callers"]) or canon_set(callers.get(np, ()), callers) == sorted(row["callers"]))
                 ce = canon_set(callees.get(np, ()))
-                same_callees = bool(ce) and ce == sorted(row["callees"])
+                same_callees = bool(ce) and (ce == sorted(row["callees"]) or canon_set(callees.get(np, ()), callees) == sorted(row["callees"]))
                 feats.append((np, same_owner, same_sig, same_callers, same_callees))
             pick = None
-            for tier in (lambda o, s, c, e: o and s and (c or not row["callers"]),
-                         lambda o, s, c, e: o and s,
-                         lambda o, s, c, e: c and (o or s),
-                         lambda o, s, c, e: c and e,
-                         lambda o, s, c, e: s and c):
-                sel = [np for np, o, s, c, e in feats if tier(o, s, c, e)]
+            rec_bag = row.get("tokens") or {}
+            rec_n = sum(rec_bag.values())
+
+            def plausible(np):
+                # structural evidence alone (same callers) does not make a 90-line function the twin of a 3-line one
+                n_ = sum(body_tokens(unknown[np]).values())
+                return not (n_ > 3 * rec_n + 12 or rec_n > 3 * n_ + 12)
+            for ti, tier in enumerate((lambda o, s, c, e: o and s and (c or not row["callers"]),
+                                       lambda o, s, c, e: o and s,
+                                       lambda o, s, c, e: c and (o or s),
+                                       lambda o, s, c, e: c and e,
+                                       lambda o, s, c, e: s and c)):
+                sel = [np for np, o, s, c, e in feats if tier(o, s, c, e) and (ti < 2 or plausible(np))]
                 if len(sel) == 1:
                     pick = sel[0]
                     break
